@@ -2437,6 +2437,24 @@ def write_cache_meta_ex(meta_file: str, meta_ex: CacheMetaEx, manager: BuildMana
         manager.log(f"Error writing meta_ex file {meta_ex_file}")
 
 
+def invalidate_cache_meta_ex(meta_file: str, manager: BuildManager) -> bool:
+    """Remove the old meta_ex file of a module that is about to get a new meta file.
+
+    Nothing inside a meta_ex file ties it to a particular meta file, so an old one that is
+    left in place when the run is interrupted (or when writing the new one fails) would
+    be trusted together with the new meta file by the next run, replaying outdated errors.
+    Return False if the old file cannot be removed (the meta file must not be written then).
+    """
+    try:
+        manager.metastore.remove(get_meta_ex_name(meta_file))
+    except FileNotFoundError:
+        pass
+    except OSError:
+        manager.log(f"Error removing old meta_ex file for {meta_file}")
+        return False
+    return True
+
+
 """Dependency manager.
 
 Design
@@ -4839,6 +4857,8 @@ def process_stale_scc(graph: Graph, ascc: SCC, manager: BuildManager) -> None:
             for dep in graph[id].dependencies
             if state.priorities.get(dep) != PRI_INDIRECT
         ]
+        if not invalidate_cache_meta_ex(meta_file, manager):
+            continue
         write_cache_meta(meta, manager, meta_file)
         indirect = [dep for dep in state.dependencies if state.priorities.get(dep) == PRI_INDIRECT]
         meta_ex = CacheMetaEx(
@@ -4917,6 +4937,8 @@ def process_stale_scc_interface(
             for dep in state.dependencies
             if state.priorities.get(dep) != PRI_INDIRECT
         ]
+        if not invalidate_cache_meta_ex(meta_file, manager):
+            continue
         write_cache_meta(meta, manager, meta_file)
         manager.commit_module(meta_file)
         scc_result.append((id, ModuleResult(graph[id].interface_hash.hex(), []), meta_file))
